@@ -891,6 +891,15 @@ func evalFunctionCall(node *jparse.FunctionCallNode, data reflect.Value, env *en
 		return undefined, newEvalError(ErrNonCallable, node.Func, nil)
 	}
 
+	// Built-in and extension functions are shared by every
+	// evaluation in the process. Give this call its own copy
+	// so that the name and context set below are not seen (or
+	// overwritten) by nested and concurrent calls.
+	if shared, ok := fn.(*goCallable); ok {
+		own := *shared
+		fn = &own
+	}
+
 	if setter, ok := fn.(nameSetter); ok {
 		if sym, ok := node.Func.(*jparse.VariableNode); ok {
 			setter.SetName(sym.Name)
